@@ -74,6 +74,12 @@ K_SLOW = "element-nodal-slow"               # add_variable(ELEMENT_NODAL) walks 
 K_LEVEL = "extra-index-level"               # ELEMENT_NODAL variable frame with an additional index level
 K_COLLAPSED = "collapsed-element"           # geometry with a node repeated in an element's connectivity
 OBJ_CONTAINERS = ("objindex", "objarray", "objseries")
+# state shared / kept between objects or calls
+K_SHARED = "shared-exporter-state"          # an exporter behaves differently when another exporter is alive / was used in between
+K_ALIAS = "result-aliases-state"            # a frame handed out by the importer, changed by the caller, shows in later reads
+K_ARGMOD = "argument-modified"              # a frame / container passed to the exporter is changed by the call
+K_READWRITES = "read-changes-file"          # reading changed the file
+MUTATIONS = ["addcol", "sort", "overwrite", "rename", "drop"]
 
 _MOD = {}
 
@@ -407,7 +413,25 @@ def container_is_bad(op):
     return c in BAD_CONTAINERS or (not op["ids"] and c in ("list", "tuple", "range"))
 
 
-def apply_export(ex, op, frames):
+def same_container(a, b):
+    """The members and their order (what a later call with the same object would store); names are not looked at."""
+    if isinstance(a, (set, frozenset)):
+        return a == b
+    return len(a) == len(b) and [int(x) for x in a] == [int(x) for x in b]
+
+
+def frame_changes(a, b):
+    """a: the frame after the call, b: as it was.  ('content' | 'cosmetic' | None): content = what a later call with the same
+    frame computes from - the index labels and their order, the values of its columns; cosmetic = anything else (names of the
+    index levels, additional columns): outside the property, only counted."""
+    if not a.index.equals(b.index) or any(c not in a.columns for c in b.columns) or not a[list(b.columns)].equals(b):
+        return "content"
+    if list(a.columns) != list(b.columns) or a.index.names != b.index.names:
+        return "cosmetic"
+    return None
+
+
+def apply_export(ex, op, frames, notes=None):
     k = op["op"]
     if k == "geom":
         ex.add_geometry(op["name"], frames[op["frame"]])
@@ -423,7 +447,15 @@ def apply_export(ex, op, frames):
     elif k == "set":
         name = op.get("name")
         fn = ex.add_node_set if op["kind"] == 0 else ex.add_element_set
-        fn(op["geom"], make_container(op["ids"], op.get("container", "index")), frames[op["frame"]], name)
+        members = make_container(op["ids"], op.get("container", "index"))
+        cont = op.get("container")
+        kept = None if cont == "generator" else (list(members) if cont == "dict_keys" else copy.deepcopy(members))
+        try:
+            fn(op["geom"], members, frames[op["frame"]], name)
+        finally:
+            if notes is not None and kept is not None and \
+                    not (list(members) == kept if cont == "dict_keys" else same_container(members, kept)):
+                notes.append(f"the {type(members).__name__} of set members passed to the call was changed by it")
     elif k == "other":
         if op["call"] == "it":
             content = {0: {}, 1: IT_CONTENT, 2: {"T": [0, "BAD"]}}[op["content"]]
@@ -448,7 +480,28 @@ def apply_import(im, st):
         im.filter_element_set(st[1])
 
 
-def run_chain(im, chain, errs=None):
+def mutate_frame(df, kind):
+    """What a caller may do with a frame the importer handed out: it is the caller's."""
+    try:
+        if kind == "addcol":
+            df["damage"] = np.arange(len(df), dtype=float)
+        elif kind == "sort":
+            df.sort_index(inplace=True, ascending=False)
+        elif kind == "overwrite":
+            for c in list(df.columns)[:2]:
+                df[c] = -12345.0
+            if not len(df.columns):
+                df["x"] = -1.0
+        elif kind == "rename":
+            df.index.rename(["e", "n"], inplace=True)
+            df.rename(columns={c: "was_" + str(c) for c in df.columns}, inplace=True)
+        elif kind == "drop" and len(df):
+            df.drop(df.index[: max(1, len(df) // 2)], inplace=True)
+    except Exception:
+        pass                    # (a frame that cannot be changed this way is just left alone)
+
+
+def run_chain(im, chain, errs=None, mutate=None):
     for i, st in enumerate(chain):
         try:
             apply_import(im, st)
@@ -462,7 +515,10 @@ def run_chain(im, chain, errs=None):
         if errs is not None:
             errs.append(err_name(e))
         return f"err@{len(chain)}"
-    return show_frame(fr)
+    text = show_frame(fr)
+    if mutate:
+        mutate_frame(fr, mutate)
+    return text
 
 
 class Importer:
@@ -665,6 +721,7 @@ class Result:
     def __init__(self, run):
         self.segs, self.fails, self.info = run.segs, run.fails, run.info
         self.import_errs, self.injected = run.import_errs, run.injected
+        self.cosmetic = run.cosmetic
 
 
 class Run:
@@ -678,6 +735,7 @@ class Run:
         self.import_errs = []
         self.injected = {}
         self.seen3 = False
+        self.cosmetic = 0        # changes of arguments that are outside the property (names, added columns)
         self._dump = None        # full dump / snapshot of the file as it is now (None: not taken yet)
         self._snap = None
 
@@ -704,8 +762,18 @@ class Run:
         M = mods()
         case = self.case
         self.frames = [make_frame(fr) for fr in case["frames"]]
+        self.pristine = [make_frame(fr) for fr in case["frames"]]
         tmp = tempfile.mkdtemp(prefix="c20_", dir=tempfile.gettempdir())
         self.fn = fn = os.path.join(tmp, "case.vmap")
+        # A changed importer whose joins multiply rows can ask for tens of GB: let it get a MemoryError (an exception of
+        # that call, caught where the call is made) instead of having the kernel kill the worker process.
+        import resource
+        limits = resource.getrlimit(resource.RLIMIT_AS)
+        cap = 6 * 2 ** 30
+        try:
+            resource.setrlimit(resource.RLIMIT_AS, (cap if limits[1] == resource.RLIM_INFINITY else min(cap, limits[1]), limits[1]))
+        except (ValueError, OSError):
+            limits = None
         try:
             self.ex = M["exp"](fn)
             self.geom_frame = {}      # geometry name -> index of the frame it was exported from
@@ -725,6 +793,8 @@ class Run:
                 chk("at the end of the history, ")
             return Result(self)
         finally:
+            if limits is not None:
+                resource.setrlimit(resource.RLIMIT_AS, limits)
             shutil.rmtree(tmp, ignore_errors=True)
 
     # ------------------------------------------------------------ exporter calls
@@ -772,12 +842,25 @@ class Run:
         before = self.dump()
         snap_before = self.snap()
         exc = None
+        notes = []
         try:
-            apply_export(self.ex, op, self.frames)
+            apply_export(self.ex, op, self.frames, notes)
         except Exception as e:
             exc = e
         self._dump = self._snap = None
         after = self.snap()
+        # --- what was passed to the call is the caller's: unchanged afterwards (values, index, names, dtypes)
+        # (values and index labels / order: a later call with the same object must compute the same; names of the index levels or
+        # added columns are outside the property and only counted)
+        ch = frame_changes(self.frames[op["frame"]], self.pristine[op["frame"]])
+        if ch == "content":
+            notes.append("the values / index of the mesh frame passed to the call were changed by it")
+        elif ch == "cosmetic":
+            self.cosmetic += 1
+        if ch:
+            self.frames[op["frame"]] = self.pristine[op["frame"]].copy(deep=True)
+        for n in notes:
+            self.fail(f"op {pos} ({k}): {n}", K_ARGMOD)
         self.info.append(None if exc is None else err_cause(exc))
         self.segs.append(("ok" if exc is None else "err") + ";" + show_snapshot(after))
         d = own_dim(fr) if k == "geom" else None
@@ -873,10 +956,62 @@ class Run:
         try:
             if op["call"] == "collapsed":
                 self.collapsed_scenario(pos, op, os.path.join(tmp, "s.vmap"))
+            elif op["call"] == "interleave":
+                self.interleave_scenario(pos, op, tmp)
             else:
                 self.timing_scenario(pos, op, os.path.join(tmp, "s.vmap"))
         finally:
             shutil.rmtree(tmp, ignore_errors=True)
+
+    def interleave_scenario(self, pos, op, tmp):
+        """Two or three exporters, each writing a file of its own (geometries of the same names), their calls interleaved:
+        every call is accepted / refused as when its exporter runs alone, every file ends up as when written alone, and reads
+        back (one importer per file, reads interleaved as well)."""
+        M = mods()
+        scripts, order = op["scripts"], op["order"]
+
+        def call(ex, o):
+            try:
+                apply_export(ex, o, self.frames)
+                return "ok"
+            except Exception as e:
+                return "err:" + err_name(e)
+
+        def reads(fn, script):
+            out = []
+            with Importer(fn) as im:
+                for g in sorted({o["name"] for o in script if o["op"] == "geom"}):
+                    ch = [["mesh", g, None], ["coords"]] + [["var", o["var"], o["state"], [o["var"] + "_" + c for c in o["cols"]]]
+                                                           for o in script if o["op"] == "var" and o["geom"] == g]
+                    out.append(run_chain(im, ch))
+            return out
+
+        alone, dumps, texts = [], [], []
+        for i, script in enumerate(scripts):
+            fn = os.path.join(tmp, f"alone{i}.vmap")
+            ex = M["exp"](fn)
+            alone.append([call(ex, o) for o in script])
+            dumps.append(full_dump(fn))
+            texts.append(reads(fn, script))
+        fns = [os.path.join(tmp, f"mixed{i}.vmap") for i in range(len(scripts))]
+        exs = [M["exp"](fn) for fn in fns]
+        nxt = [0] * len(scripts)
+        for i in order:
+            o = scripts[i][nxt[i]]
+            got = call(exs[i], o)
+            if got != alone[i][nxt[i]]:
+                self.fail(f"op {pos}: exporter {i}, call {nxt[i]} ({o['op']} {o.get('var', o.get('name'))!r}): {got} when the calls of "
+                          f"{len(scripts)} exporters are interleaved (order {order}), {alone[i][nxt[i]]} when it runs alone", K_SHARED)
+                return
+            nxt[i] += 1
+        for i, script in enumerate(scripts):
+            diff = dump_diff(dumps[i], full_dump(fns[i]))
+            if diff:
+                got = reads(fns[i], script)
+                self.fail(f"op {pos}: the file of exporter {i} differs at {diff[:3]} from the file it writes alone (calls of "
+                          f"{len(scripts)} exporters interleaved, order {order}); read back {str(got)[:160]}, alone {str(texts[i])[:160]}",
+                          K_SHARED)
+                return
 
     def collapsed_scenario(self, pos, op, fn):
         """A mesh with collapsed elements (a node repeated in the connectivity, e.g. a quadrilateral 1 2 4 4): the key
@@ -969,7 +1104,7 @@ class Run:
 
     def other_op(self, pos, op):
         """Exporter calls outside the model (SYSTEM datasets, attributes): they must leave geometries and variables alone."""
-        if op["call"] in ("collapsed", "timing"):
+        if op["call"] in ("collapsed", "timing", "interleave"):
             return self.scenario_op(pos, op)
         if op["call"] == "badmesh":
             return self.badmesh_op(pos, op)
@@ -1030,17 +1165,38 @@ class Run:
 
     def import_op(self, pos, op):
         fn = self.fn
+        before = self.dump()
+        # every frame handed out is changed in place by the "caller" before the next read on the same importer object
         with Importer(fn) as im:
-            res = [run_chain(im, ch, self.import_errs) for ch in op["chains"]]
+            res = [run_chain(im, ch, self.import_errs, MUTATIONS[(pos + j) % len(MUTATIONS)]) for j, ch in enumerate(op["chains"])]
         self.segs.append("/".join(res))
+        self._dump = None
+        diff = dump_diff(before, self.dump())
+        if diff:
+            self.fail(f"op {pos}: reading changed the file at {diff[:4]}", K_READWRITES)
+        # --- the reads of one importer object equal the reads of fresh importer objects, whatever the caller did to the
+        # frames it got
+        for j, (ch, r) in enumerate(zip(op["chains"], res)):
+            if ch and ch[0][0] == "mesh":
+                with Importer(fn) as im1:
+                    r0 = run_chain(im1, ch)
+                if r != r0:
+                    prev = MUTATIONS[(pos + j - 1) % len(MUTATIONS)] if j else None
+                    self.fail(f"op {pos}: chain {j} {ch} on an importer that was used before reads {r[:90]}, a fresh importer "
+                              f"{r0[:90]} (the frame of the previous read was changed in place: {prev})", K_ALIAS)
+                    break
         # --- reading is repeatable: a chain that starts with make_mesh gives the same frame on the same importer
         # object again and on a fresh one
         for ch, r in zip(op["chains"], res):
             if ch and ch[0][0] == "mesh":
                 with Importer(fn) as im2:
-                    r1 = run_chain(im2, ch)
-                    r2 = run_chain(im2, ch)
-                if not (r == r1 == r2):
+                    r1 = run_chain(im2, ch, None, MUTATIONS[(pos + 2) % len(MUTATIONS)])
+                    r2 = run_chain(im2, ch, None, MUTATIONS[(pos + 3) % len(MUTATIONS)])
+                    r3 = run_chain(im2, ch)
+                if r1 == r and not (r1 == r2 == r3):
+                    self.fail(f"op {pos}: chain {ch} read three times on one importer, the frames changed in place in between: "
+                              f"{r1[:80]} / {r2[:80]} / {r3[:80]}", K_ALIAS)
+                elif not (r == r1 == r2):
                     self.fail(f"op {pos}: chain {ch} is not repeatable: {r[:80]} / {r1[:80]} / {r2[:80]}",
                               "not-repeatable")
 
@@ -1410,6 +1566,37 @@ def reordered(rng, fr, mode):
     return out
 
 
+def gen_interleave(rng, frames, variants):
+    """Scripts for two or three exporters (a geometry of the same name each, from the same frame, a reordered copy of it or
+    another frame; a nodal, an element nodal variable and a set) and a random interleaving of their calls."""
+    base = [i for i, f in enumerate(frames) if f["rows"]]
+    if not base:
+        return None
+    n = rng.choice([2, 2, 3])
+    f0 = rng.choice(base)
+    pool = [f0] + ([variants[f0]] if f0 in variants else []) + [rng.choice(base)]
+    name = rng.choice(["1", "g"])
+    scripts = []
+    for i in range(n):
+        fi = pool[i % len(pool)] if rng.random() < 0.8 else rng.choice(base)
+        fr = frames[fi]
+        nodal, free = frame_info(fr)
+        cols = (free or nodal or ["x"])[:2]
+        sc = [{"op": "geom", "name": name, "frame": fi},
+              {"op": "var", "state": "s", "geom": name, "var": "EN", "frame": fi, "cols": cols, "loc": 6},
+              {"op": "var", "state": "s", "geom": name, "var": "N", "frame": fi, "cols": (nodal or ["x"])[:1], "loc": 2}]
+        if rng.random() < 0.5:
+            ids = sorted({r[1] for r in fr["rows"]})
+            sc.append({"op": "set", "kind": 0, "geom": name, "ids": rng.sample(ids, max(1, len(ids) // 2)), "frame": fi,
+                       "name": "S", "container": rng.choice(["index", "list", "ndarray"])})
+        if rng.random() < 0.4:
+            sc.insert(rng.randint(1, len(sc)), {"op": "geom", "name": "h", "frame": rng.choice(base)})
+        scripts.append(sc)
+    order = [i for i, sc in enumerate(scripts) for _ in sc]
+    rng.shuffle(order)
+    return {"op": "other", "call": "interleave", "scripts": scripts, "order": order}
+
+
 def gen_collapsed(rng):
     """A mesh with one or two collapsed elements and a permutation of its rows for the variable's frame."""
     rows, nid = [], 1
@@ -1577,8 +1764,12 @@ def gen_case(rng, tier):
             elif q < 0.5:
                 ops.append({"op": "other", "call": "badmesh", "kind": rng.choice(["int", "none", "noids"]),
                             "geom": rng.choice(geoms + ["nogeo"]), "loc": rng.choice([2, 6])})
-            elif q < 0.7:
+            elif q < 0.65:
                 ops.append(gen_collapsed(rng))
+            elif q < 0.85:
+                o = gen_interleave(rng, frames, variants)
+                if o:
+                    ops.append(o)
             else:
                 path = rng.choice(["VMAP/GEOMETRY/" + rng.choice(geoms), "INVALID", "VMAP/VARIABLES", "VMAP/GEOMETRY/nogeo"])
                 ops.append({"op": "other", "call": "attr", "path": path, "key": rng.choice(["MYNAME", "MYSIZE"]),
@@ -1674,6 +1865,13 @@ def tiny_cases():
                         "container": CONTAINERS[pi % len(CONTAINERS)]},
                        {"op": "set", "kind": 1, "geom": "g", "ids": [rows_by_el[-1][0][0]], "frame": 0, "name": "last",
                         "inject": inj[4], "container": CONTAINERS[(pi + 5) % len(CONTAINERS)]},
+                       {"op": "other", "call": "interleave", "order": [0, 1, 0, 1, 1, 0], "scripts": [
+                           [{"op": "geom", "name": "g", "frame": 0},
+                            {"op": "var", "state": "s", "geom": "g", "var": "EN", "frame": 0, "cols": ["p1"], "loc": 6},
+                            {"op": "var", "state": "s", "geom": "g", "var": "N", "frame": 0, "cols": ["d1"], "loc": 2}],
+                           [{"op": "geom", "name": "g", "frame": 1},
+                            {"op": "var", "state": "s", "geom": "g", "var": "EN", "frame": 1, "cols": ["p1"], "loc": 6},
+                            {"op": "var", "state": "s", "geom": "g", "var": "N", "frame": 1, "cols": ["d1"], "loc": 2}]]},
                        {"op": "list", "geom": "g"},
                        {"op": "import", "chains": [
                            [["mesh", "g", "s"], ["coords"], ["var", "N", None, ["n"]], ["var", "EN", None, ["a", "b"]],
@@ -1782,6 +1980,12 @@ class C20(Prop):
         "(an ELEMENT_NODAL export in stored order costs at most 4 x a NODE export of the same 1e5-row frame + 10 ms; it runs in ONE corpus "
         "case only, timing-element-nodal, is not generated, and its threshold is machine dependent: measured ratio 0.6 - 0.7 here); the "
         "exporter's in-memory note of the connectivity it wrote is cleared before some calls (it then reads the file)",
+        "state between objects and calls: the calls of two or three exporters (files of their own, geometries of the same names) "
+        "are interleaved and compared with each exporter running alone; every frame an importer hands out is changed in "
+        "place before the next read and the reads are compared with those of fresh importers; reading must leave the file "
+        "as it is; the VALUES and the INDEX (labels, order) of the frames and the members of the containers passed to the "
+        "exporter must be unchanged after the call - renamed index levels or added columns of an argument change no later "
+        "result, are outside the property and only counted (argument_changes_outside_the_property)",
         "not compared with the model (incidental): exception classes, the order and multiplicity of set members in the "
         "file, the row order of a nodal variable's datasets; names with '/' (HDF5 paths) and re-opening an existing file "
         "with VMAPExport (truncates) are outside the generator; NaN / fractional ids in a frame or a set and files whose MYCOORDINATES "
@@ -1794,7 +1998,7 @@ class C20(Prop):
                       "frames_with_ids_outside_int32": 0, "empty_frames": 0, "object_column_frames": 0,
                       "binary32_frames": 0, "coordinate_cells": 0, "coordinate_cells_not_binary32": 0,
                       "coordinate_cells_nan_or_inf": 0, "thin_or_tiny_3d_frames": 0, "empty_sets": 0,
-                      "max_rows": 0, "injected_trials": {}, "oracle_findings": {}, "set_containers": {},
+                      "max_rows": 0, "argument_changes_outside_the_property": 0, "injected_trials": {}, "oracle_findings": {}, "set_containers": {},
                       "element_nodal_frames_in_another_row_order": 0, "element_nodal_frames_not_matching_geometry": 0,
                       "exhaustive_scope_types": "every supported element type alone and every pair of types of one "
                                                 "dimension in one geometry (tiny_cases)"}
@@ -1874,6 +2078,7 @@ class C20(Prop):
                         st["element_nodal_frames_in_another_row_order"] += 1
         for n in res.import_errs:
             st["import_errors"][n] = st["import_errors"].get(n, 0) + 1
+        st["argument_changes_outside_the_property"] += getattr(res, "cosmetic", 0)
         for k, v in res.injected.items():
             st["injected_trials"][k] = st["injected_trials"].get(k, 0) + v
         for _, klass in res.fails[:1]:
